@@ -174,8 +174,29 @@ def check_all(ctx, cls):
             # the decision is the filter of a comprehension over per-segment records: a spelling this rule does not read
             ctx.undecided(rule_b, "branches", filtered[0].loc(), "the flagging decision is the filter of a comprehension (records produced elsewhere): not decided in this spelling")
             return
+        # no branch per segment at all: a vectorised selection.  One thing is decided about it: intervals listed selection by
+        # selection (all segments below the lower bound, then all above the upper one) are not in position order
+        for q_ in good:
+            for e in pred_events(q_, "comprehension"):
+                it = e.data.get("iter")
+                k_ = valkey(it) if it is not None else ""
+                if any(w in k_ for w in ("concat", "hstack", "append(")) and "sort" not in k_ and "unique" not in k_:
+                    ctx.violation("C17.c ONE-INTERVAL-PER-SEGMENT", "position-order", e.loc(), "the flagged segments are listed selection by selection (one group of indices after the other), not in the order of their positions: a segment above the upper bound that precedes one below the lower bound comes out after it", found=k_[:160], expected="one pass over the segments in position order (or a sort of the selected indices)")
+                    return
+        if len(good) == 1 and not pred_events(good[0], "list_append"):
+            ctx.undecided(rule_b, "branches", predm.loc(), "the flagging decision is not a branch per segment (a vectorised selection): not decided in this spelling")
+            return
         ctx.violation(rule_b, "branches", predm.loc(), "the flagging decision does not have both outcomes", found=f"{len(flagged)} flagging / {len(unflag)} non-flagging paths")
         return
+    # every returning path judges the segments: none leaves _predict before the loop over the groups (with no changepoint the
+    # whole series is the one segment, and it is flagged like any other when its statistic is out of range)
+    early = [q_ for q_ in good if not any("groupby" in valkey(e.data["loop"].info.get("over")) for e in pred_events(q_, "loop_enter") if e.data["loop"].info.get("over") is not None)]
+    if early:
+        k0 = mark_index(early[0], "fit-done")
+        why = [repr(c)[:80] for e in early[0].events[k0:] if e.kind == "decide" for c in [e.data["cond"]]][-2:]
+        ctx.violation("C17.c ONE-INTERVAL-PER-SEGMENT", "every-segment-judged", predm.loc(), "a returning path of _predict never reaches the loop over the segments: on that path nothing is flagged whatever the statistic of the (single) segment", found=f"{len(early)} of {len(good)} returning paths skip the group loop; decided on it: {why}", expected="every path applies the predicate to every group")
+    else:
+        ctx.holds("C17.c ONE-INTERVAL-PER-SEGMENT", "every-segment-judged", predm.loc(), f"all {len(good)} returning paths of _predict go through the loop over the segments")
     q = flagged[0]
     app_e = pred_events(q, "list_append")[0]
     guard = app_e.facts[-1] if app_e.facts else None
